@@ -33,7 +33,10 @@ func explainedWindow(draws []rngDraw, v []byte) (bool, string) {
 
 // explainedExponent: some candidate derivation x of a served chunk satisfies g^x mod p == pub.
 func explainedExponent(draws []rngDraw, g int64, pub []byte) (bool, string) {
-	p := mtp.DHPrime
+	return explainedExponentP(draws, g, pub, mtp.DHPrime)
+}
+
+func explainedExponentP(draws []rngDraw, g int64, pub []byte, p *big.Int) (bool, string) {
 	want := new(big.Int).SetBytes(pub)
 	pm1 := new(big.Int).Sub(p, big.NewInt(1))
 	half := new(big.Int).Rsh(pm1, 1)
@@ -186,6 +189,22 @@ func drawsBrief(d []rngDraw) []string {
 func c19srp(c *wk.Ctx, idx int, r *mrand.Rand, t *rngTee) {
 	p := mtp.DHPrime
 	g := 3
+	// a server chooses the group: besides the usual prime, moduli of other shapes that pass the library's validity
+	// checks (a Mersenne-like 2^1984-1, a random odd 2048-bit number, a 2040-bit one)
+	switch idx % 4 {
+	case 1:
+		p = new(big.Int).Sub(new(big.Int).Lsh(big.NewInt(1), 1984), big.NewInt(1))
+	case 2:
+		b := rbytes(r, 256)
+		b[0] |= 0x80
+		b[255] |= 1
+		p = new(big.Int).SetBytes(b)
+	case 3:
+		b := rbytes(r, 255)
+		b[0] |= 0x80
+		b[254] |= 1
+		p = new(big.Int).SetBytes(b)
+	}
 	s1, s2 := rbytes(r, 16), rbytes(r, 16)
 	srv := srpsrv.NewServer(p, g, s1, s2, []byte("pw"))
 	srv.SetB(new(big.Int).SetBytes(rbytes(r, 256)))
@@ -206,7 +225,8 @@ func c19srp(c *wk.Ctx, idx int, r *mrand.Rand, t *rngTee) {
 	for _, d := range draws {
 		c.Count("draws.by."+strings.ReplaceAll(d.Caller, "<", "←"), 1)
 	}
-	if ok, _ := explainedExponent(draws, int64(g), obj.A); !ok {
+	c.Count(fmt.Sprintf("srp.modulus_shape_%d", idx%4), 1)
+	if ok, _ := explainedExponentP(draws, int64(g), obj.A, p); !ok {
 		c.Viol("C19", idx, "unexplained/srp-ephemeral", "no chunk served by the OS random source explains the SRP value A", drawsBrief(draws))
 	}
 	c.Distinct("srp", fmt.Sprintf("%x", headOf(obj.A, 8)))
